@@ -152,13 +152,9 @@ fn judge_log(
                 RMsg::SetChunkSize(_) => m.ts == 0 || m.ts == e.clock,
                 _ => m.ts == e.clock,
             };
-            if !ok {
-                out.violation(
-                    "session-timestamp-is-not-the-session-clock-modulo-2^32",
-                    witness(json!({"packet_index": i, "decoded_timestamp": m.ts, "session_clock_mod_2^32": e.clock, "produced_by": e.op, "type": m.type_id})),
-                );
-                return false;
-            }
+            // informational only: the statement requires decodability at any uptime, not a
+            // particular timestamp policy (a library stamping control messages with 0 is fine)
+            out.count(if ok { "session_timestamps_equal_to_clock_mod_2^32" } else { "session_timestamps_differing_from_clock" }, 1);
         }
         full.push(m.clone());
     }
@@ -451,7 +447,7 @@ impl Check for C18 {
         }
     }
     fn rule(&self) -> String {
-        "session histories of 5-50 steps: the C09 (server) and C10 (client) symbol walks with a quarter of the steps replaced by media / metadata / ping sends (payloads {0,1,127,128,129,5000,70000,200000}, droppable flags, arbitrary timestamps), optionally a peer window announcement so acknowledgements appear; configurations: chunk size {1,2,127,128,129,4096,65536,2^31-1, uniform}, window {1,100,2.5M,2^32-1}, onBWDone on/off. Virtual session clock: start from {0, 2^24-k, 2^24, 2^31+-k, 2^32-k, 2^32-1-j, 2^32+k, 2*2^32+k, uniform 0..2^33} and advance before each call by {0,1,33,40,1000,2^24-1,2^24,2^31}. Every packet every public call returned is logged in order with what the history expects of it. The independent strict decoder must decode the log packet by packet (each packet exactly one whole message), every message body must be well formed per the reference layouts, protocol-control and connection-level messages on message stream 0 and stream-level commands/media on the stream of the operation that produced them, session-originated timestamps equal to the session clock modulo 2^32, droppable mark exactly as asked; then every subset (k <= 5, thorough 8; sampled beyond) of the droppable packets is removed and the rest must decode to exactly the same messages. distinct = (symbol sequence hash, start clock class, packets).".to_string()
+        "session histories of 5-50 steps: the C09 (server) and C10 (client) symbol walks with a quarter of the steps replaced by media / metadata / ping sends (payloads {0,1,127,128,129,5000,70000,200000}, droppable flags, arbitrary timestamps), optionally a peer window announcement so acknowledgements appear; configurations: chunk size {1,2,127,128,129,4096,65536,2^31-1, uniform}, window {1,100,2.5M,2^32-1}, onBWDone on/off. Virtual session clock: start from {0, 2^24-k, 2^24, 2^31+-k, 2^32-k, 2^32-1-j, 2^32+k, 2*2^32+k, uniform 0..2^33} and advance before each call by {0,1,33,40,1000,2^24-1,2^24,2^31}. Every packet every public call returned is logged in order with what the history expects of it. The independent strict decoder must decode the log packet by packet (each packet exactly one whole message), every message body must be well formed per the reference layouts, protocol-control and connection-level messages on message stream 0 and stream-level commands/media on the stream of the operation that produced them, droppable mark exactly as asked (whether session-originated timestamps equal the session clock modulo 2^32 is counted, not judged); then every subset (k <= 5, thorough 8; sampled beyond) of the droppable packets is removed and the rest must decode to exactly the same messages. distinct = (symbol sequence hash, start clock class, packets).".to_string()
     }
     fn assumptions(&self) -> Vec<String> {
         vec![
@@ -470,9 +466,9 @@ impl Check for C18 {
             "histories_crossing_2^32_ms".into(),
             "histories_all_drop_subsets".into(),
             "drop_subset_executions_ok".into(),
-            "server_fmt0_ext_first".into(),
-            "server_fmt1_ext_first".into(),
-            "client_fmt0_ext_first".into(),
         ]
+    }
+    fn soft_counters(&self, _tier: Tier) -> Vec<String> {
+        vec!["server_fmt0_ext_first".into(), "server_fmt1_ext_first".into(), "client_fmt0_ext_first".into(), "server_fmt3_noext_continuation".into()]
     }
 }
